@@ -33,7 +33,8 @@ def _task(args):
         import traceback
         tr, err = [], f"machinery: {type(e).__name__}: {e}\n{traceback.format_exc()[-1500:]}"
     acts = [a for (_, a, _) in path]
-    return dict(key=key, idx=idx, acts=acts, nsteps=len(tr), found=r.found, facts=r.facts, err=err)
+    return dict(key=key, idx=idx, acts=acts, nsteps=len(tr), found=r.found, facts=r.facts, err=err,
+                path=[[a, v] for (_, a, v) in path])
 
 
 def run(rep, worlds, max_paths=None, maxlen=12, seed=0, procs=16, tlc_kw=None, edge_filter=None):
@@ -85,7 +86,8 @@ def run(rep, worlds, max_paths=None, maxlen=12, seed=0, procs=16, tlc_kw=None, e
             fam, eager, daskin, cn, sd = out["key"]
             scen = dict(kind="lifecycle_path", world=dict(family=fam, eager=eager, dask=daskin, check_nans=cn, seed=sd),
                         actions=out["acts"][:max(out["nsteps"], 1) + 1],
-                        action=out["acts"][min(out["nsteps"], len(out["acts"])) - 1]["kind"] if out["acts"] else None)
+                        action=out["acts"][min(out["nsteps"], len(out["acts"])) - 1]["kind"] if out["acts"] else None,
+                        path=out["path"][:max(out["nsteps"], 1) + 1] if out["found"] else None)
             if len(rep.samples) < 3 and not out["found"]:
                 rep.sample(dict(world=scen["world"], actions=[a["kind"] + (f"({a['arg']})" if "arg" in a else "") for a in out["acts"]]))
             for (prop, clause, what) in out["found"]:
@@ -104,3 +106,19 @@ def report_findings(rep, findings, props):
             other[prop] = other.get(prop, 0) + 1
     if other:
         rep.extra["findings_for_other_properties"] = other
+
+
+def replay_path(rep, scenario, tags):
+    """Re-execute exactly one recorded lifecycle path (./check <id> --replay <file>)."""
+    wd = scenario["world"]
+    w = L.World(wd["family"], wd["eager"], wd["dask"], wd["check_nans"], wd["seed"])
+    path = [(None, a, v) for a, v in scenario["path"]]
+    r = L.Replayer(w, rep)
+    r.run(path)
+    rep.traces = 1
+    rep.states = rep.transitions = len(path)
+    rep.d_facts, rep.m_facts = r.facts["D"], r.facts["M"]
+    rep.sample(dict(world=wd, actions=[a["kind"] for a, _ in scenario["path"]]))
+    for prop, clause, what in r.found:
+        if prop in tags:
+            rep.violate(clause, what, scenario)
